@@ -1,8 +1,10 @@
 (* C10 — Disk build touches only its own territory; failed compiles change nothing.
    Model: Model/FS.v (directory tree, primitive mutations), Model/Build.v (compile_jmc as a plan of mutations).
-   The theorems are about the REPAIRED behaviour [fixed] (fixes/C10-cert-after-compile.patch,
-   C10-static-minecraft.patch, C10-static-resolved-path.patch, C11-namespace-deleted-last.patch); the
-   `_refuted_pinned` theorems show what the unchanged tree ([pinned]) does instead.
+   The theorems are about the REPAIRED behaviour: every [sound] variant, i.e. [fixed] (fixes/C10-cert-after-compile.patch,
+   C10-static-minecraft.patch, C10-static-resolved-path.patch, C11-namespace-deleted-last.patch) and [hardened]
+   (in addition fixes/C10-function-tags-read-first.patch — needed by C10_failed_build_noop — and fixes/C11-atomic-cert.patch);
+   the `_refuted_pinned` theorems show what the original tree ([pinned]) does instead, `_refuted_fixed` what [fixed] still did.
+   Which variant a source tree has is detected by harness/c10.py with witness builds.
    Tie: harness/c10.py runs the real compile_jmc under harness/fstrace.py and compares trace, tree and result
    with Build.run, and checks the property itself on the real trees (Run/C10.v). *)
 From Coq Require Import String List Bool.
@@ -23,9 +25,10 @@ Proof. exact territory. Qed.
 Print Assumptions C10_territory.
 
 (* #static folders and everything below them are byte-identical, at every crash point (repaired behaviour). *)
-Theorem C10_statics_untouched : forall c h out fault t ops t' p,
+Theorem C10_statics_untouched : forall v c h out fault t ops t' p,
+  sound v ->
   (forall o, out = Success o -> static_safe c h o = true) ->
-  crash_trace (plan fixed c h out fault t) ops -> exec ops t = Some t' ->
+  crash_trace (plan v c h out fault t) ops -> exec ops t = Some t' ->
   excepted h p = true -> node_at t' p = node_at t p.
 Proof. exact statics_untouched. Qed.
 Print Assumptions C10_statics_untouched.
@@ -47,10 +50,23 @@ Print Assumptions C10_refusal.
 
 (* A compile that ends in a compilation error (header, lexer/parser, DataPack.build) performs no mutation
    (repaired behaviour). *)
-Theorem C10_failed_compile_noop : forall c h out fault t,
-  (forall o, out <> Success o) -> plan fixed c h out fault t = [] /\ exec (plan fixed c h out fault t) t = Some t.
+Theorem C10_failed_compile_noop : forall v c h out fault t,
+  v_cert_early v = false ->
+  (forall o, out <> Success o) -> plan v c h out fault t = [] /\ exec (plan v c h out fault t) t = Some t.
 Proof. exact failed_compile_noop. Qed.
 Print Assumptions C10_failed_compile_noop.
+
+(* ... and so does a build that stops with the JMCBuildError for an unparsable / "values"-less function-tag file, once
+   the tag files are read before the first mutation ([v_tags_early], fixes/C10-function-tags-read-first.patch):
+   EVERY way a compile can fail ([failed]: header error, refusal, lexer/parser error, DataPack.build error, tag error)
+   leaves the tree exactly as it was.  The one result that is neither success nor [failed] is ROsErr — the operating
+   system refused a deletion half-way — whose effect C10_territory bounds. *)
+Theorem C10_failed_build_noop : forall v c h out fault t,
+  v_cert_early v = false -> v_tags_early v = true ->
+  failed (snd (run v c h out fault t)) = true ->
+  plan v c h out fault t = [] /\ exec (plan v c h out fault t) t = Some t.
+Proof. exact failed_build_noop. Qed.
+Print Assumptions C10_failed_build_noop.
 
 (* pinned: refuted for a fresh namespace (read_cert writes jmc.txt before lexing) ... *)
 Theorem C10_refuted_fresh_cert_pinned :
@@ -66,15 +82,21 @@ Theorem C10_failed_compile_noop_pinned_partial : forall c h out fault t,
 Proof. exact failed_compile_noop_pinned_partial. Qed.
 Print Assumptions C10_failed_compile_noop_pinned_partial.
 
-(* Still false after the repairs (known finding C10-malformed-tag-after-mutation): the JMCBuildError raised for an
-   unparsable function-tag file comes after jmc.txt has been written.  C10_territory bounds what such a run, and a
-   run stopped by a deletion failure (ROsErr), can have changed. *)
-Theorem C10_tag_error_noop_refuted :
+(* [fixed] (tag files read after make_cert / #copy; known finding C10-malformed-tag-after-mutation while
+   fixes/C10-function-tags-read-first.patch is not committed): the JMCBuildError raised for an unparsable function-tag
+   file comes after jmc.txt has been written ... *)
+Theorem C10_tag_error_noop_refuted_fixed :
   exists c h o t t', run fixed c h (Success o) None t = (plan fixed c h (Success o) None t, RTagErr) /\
     exec (plan fixed c h (Success o) None t) t = Some t' /\
     node_at t (cert_path c) = None /\ node_at t' (cert_path c) <> None.
-Proof. exact tag_error_noop_refuted. Qed.
-Print Assumptions C10_tag_error_noop_refuted.
+Proof. exact tag_error_noop_refuted_fixed. Qed.
+Print Assumptions C10_tag_error_noop_refuted_fixed.
+
+(* ... the same tree and project under [hardened]: the error is reported and nothing is touched *)
+Example C10_tag_error_noop_hardened :
+  run hardened w_cfg w_hdr0 (Success w_out) None w_tree_badtag = ([], RTagErr).
+Proof. exact tag_error_noop_hardened. Qed.
+Print Assumptions C10_tag_error_noop_hardened.
 
 (* non-vacuity: the hypotheses (a plan that executes) are satisfiable, and such a build does change the tree *)
 Example C10_build_executes :
@@ -84,3 +106,14 @@ Example C10_build_executes :
     node_at t' ["."; "data"; "minecraft"; "keep"; "m.txt"]%string = Some (NFile (Raw "kept by hand")).
 Proof. exact build_executes. Qed.
 Print Assumptions C10_build_executes.
+
+(* non-vacuity for [hardened]: the complete build executes; jmc.txt arrives through jmc.txt.tmp + replace *)
+Example C10_build_executes_hardened :
+  exists t', exec (plan hardened w_cfg w_hdr_mc (Success w_out) None w_tree_mc) w_tree_mc = Some t' /\
+    snd (run hardened w_cfg w_hdr_mc (Success w_out) None w_tree_mc) = RDone /\
+    In (Replace (cert_path w_cfg) (Raw "LOAD=__load__"%string)) (plan hardened w_cfg w_hdr_mc (Success w_out) None w_tree_mc) /\
+    node_at t' (cert_path w_cfg) = Some (NFile (Raw "LOAD=__load__"%string)) /\ node_at t' (cert_tmp w_cfg) = None /\
+    node_at t' ["."; "data"; "ns"; "function"; "g.mcfunction"]%string = Some (NFile (Raw "say g")) /\
+    node_at t' ["."; "data"; "minecraft"; "keep"; "m.txt"]%string = Some (NFile (Raw "kept by hand")).
+Proof. exact build_executes_hardened. Qed.
+Print Assumptions C10_build_executes_hardened.
